@@ -153,8 +153,10 @@ func (l *Gpos6_1) apply(ctx *Context, a, b int) int {
 		return -1
 	}
 
-	dx := mark2Record.X - mark1Record.X
-	dy := mark2Record.Y - mark1Record.Y
+	// The anchor of mark2 is positioned relative to the (already shifted)
+	// glyph origin of mark2.
+	dx := seq[p].XOffset + mark2Record.X - mark1Record.X
+	dy := seq[p].YOffset + mark2Record.Y - mark1Record.Y
 	for i := p; i < a; i++ {
 		dx -= seq[i].Advance
 	}
